@@ -165,6 +165,7 @@ struct World
 
 	int api_depth = 0;          // > 0 while an initiating API call is on the stack
 	long step_no = 0;           // event boundary counter (step hook)
+	long adv_no = 0;            // clock steps that fired at least one timer (step hook)
 	long pkt_ids = 0;
 	std::string pcap_path;      // capture file of this scenario (`pcap on`)
 
